@@ -276,6 +276,9 @@ def finish(prop, tier, seed, level, res, coverage, assumptions, t0, runner=None,
         runner.cleanup()
     if unknown:
         return 1
+    if not cov.get('samples'):
+        print('INCONCLUSIVE property=%s: harness emitted no sample cases (evidence would be invalid)' % prop)
+        return 2
     # a run whose monitors observed nothing is not "held"
     if cov.get('evaluations', 0) < 1 or cov.get('distinct_nontrivial', 0) < 2:
         print('INCONCLUSIVE property=%s: monitors observed too little (evaluations=%s distinct_nontrivial=%s)' % (prop, cov.get('evaluations'), cov.get('distinct_nontrivial')))
